@@ -70,8 +70,36 @@ func basicWidth(b *types.Basic) (int, bool, bool) { // width, signed, ok
 	return 0, false, false
 }
 
+// typeKey is the canonical name of a type.  Type arguments of generic named types
+// are erased (lockedMap[V] and lockedMap[_] are the same heap region): inside the
+// generic bodies that are verified, a generic type only occurs at its own parameters.
 func typeKey(t types.Type) string {
-	return types.TypeString(t, func(p *types.Package) string { return p.Path() })
+	s := types.TypeString(t, func(p *types.Package) string { return p.Path() })
+	if !strings.Contains(s, "[") {
+		return s
+	}
+	var b strings.Builder
+	for i := 0; i < len(s); i++ {
+		if s[i] == '[' && i > 0 && isIdentChar(s[i-1]) && !strings.HasSuffix(s[:i], "map") {
+			depth := 0
+			j := i
+			for ; j < len(s); j++ {
+				if s[j] == '[' {
+					depth++
+				} else if s[j] == ']' {
+					depth--
+					if depth == 0 {
+						break
+					}
+				}
+			}
+			b.WriteString("[]")
+			i = j
+			continue
+		}
+		b.WriteByte(s[i])
+	}
+	return b.String()
 }
 
 func (e *Engine) layoutOf(t types.Type) *layout {
